@@ -318,6 +318,112 @@ theorem repeated_attempts_never_dial_own_socket (prior : Option ConnError) (dh :
       exact ih _ j hi
 
 
+/-! ### updates in flight: the listener set changes per instance start / stop event -/
+
+/-- every instance whose sockets are listening is listed in `Servers._instances` -/
+def ListedInv (st : LState) : Prop := ∀ e ∈ st.bound, st.listed.contains e.1 = true
+
+/-- **listening ⇒ listed, at every moment.** The invariant holds initially and is preserved by every
+    event of an update: replacing `_instances` (instances going away stay listed), a stop task closing
+    its sockets, the stop tasks being gathered, a start task binding its sockets, and attempts. -/
+theorem listedInv_step (st : LState) (ev : LEv) (h : ListedInv st) : ListedInv (lstep st ev) := by
+  cases ev with
+  | beginUpdate so modes =>
+    intro e he
+    simp only [lstep] at he ⊢
+    have hl := h e he
+    simp only [List.contains_eq_mem, List.mem_append, List.mem_filter, decide_eq_true_eq,
+      Bool.not_eq_true', decide_eq_false_iff_not] at hl ⊢
+    by_cases hm : e.1 ∈ (if so = true then modes else [])
+    · exact Or.inl hm
+    · exact Or.inr ⟨hl, hm⟩
+  | stopped k =>
+    intro e he
+    simp only [lstep, List.mem_filter] at he ⊢
+    exact h e he.1
+  | stopsDone =>
+    intro e he
+    simp only [lstep, List.mem_filter] at he ⊢
+    exact he.2
+  | started k s =>
+    intro e he
+    simp only [lstep] at he ⊢
+    by_cases hk : st.listed.contains k = true
+    · simp only [hk, if_true, List.mem_cons, List.mem_filter] at he ⊢
+      rcases he with rfl | he
+      · exact hk
+      · exact h e he.1
+    · simp only [hk] at he ⊢
+      exact h e he
+  | connect dh dp tp ok => exact h
+
+theorem listedInv_always (evs : List LEv) (st : LState) (h : ListedInv st) :
+    ListedInv (lstateAfter st evs) := by
+  induction evs generalizing st with
+  | nil => exact h
+  | cons e es ih => exact ih _ (listedInv_step st e h)
+
+/-- under the invariant the guard sees every socket that is listening -/
+private theorem listening_sub_guardView (st : LState) (h : ListedInv st) (s : Server)
+    (hs : s ∈ st.listening) : s ∈ st.guardView := by
+  simp only [LState.listening, List.mem_map] at hs
+  obtain ⟨e, he, rfl⟩ := hs
+  simp only [LState.guardView, List.mem_map, List.mem_filter]
+  exact ⟨e, ⟨he, h e he⟩, rfl⟩
+
+private theorem denotes_sub (a b : List Server) (hsub : ∀ s ∈ a, s ∈ b) (dh : Text) (dp : Nat)
+    (tp : Transport) (h : denotesOwnSocket a dh dp tp = true) : denotesOwnSocket b dh dp tp = true := by
+  simp only [denotesOwnSocket, List.any_eq_true] at h ⊢
+  obtain ⟨s, hs, rest⟩ := h
+  exact ⟨s, hsub s hs, rest⟩
+
+/-- **C23 while updates are in flight.** For every sequence of update events (instances starting and
+    stopping one by one, in any order and interleaving) and attempts, starting with no listeners: an
+    attempt whose destination denotes a socket that is LISTENING at that moment — whether or not the
+    update that bound it, or the one that is closing it, has finished — never reaches the socket
+    primitive. -/
+theorem inflight_never_connects_to_listening_socket (evs : List LEv) (i : Nat)
+    (dh : Text) (dp : Nat) (tp : Transport) (ok : Bool)
+    (hev : evs[i]? = some (LEv.connect dh dp tp ok))
+    (hown : denotesOwnSocket (lstateAfter LState.empty (evs.take i)).listening dh dp tp = true) :
+    (lrun LState.empty evs)[i]? =
+      some (some [Ev.hookServerConnect, Ev.hookServerConnectError, Ev.completedKilled]) := by
+  have gen : ∀ (es : List LEv) (st : LState) (j : Nat), ListedInv st →
+      es[j]? = some (LEv.connect dh dp tp ok) →
+      denotesOwnSocket (lstateAfter st (es.take j)).listening dh dp tp = true →
+      (lrun st es)[j]? = some (some [Ev.hookServerConnect, Ev.hookServerConnectError, Ev.completedKilled]) := by
+    intro es
+    induction es with
+    | nil => intro st j _ h; simp at h
+    | cons e rest ih =>
+      intro st j hinv hj hd
+      cases j with
+      | zero =>
+        simp only [List.getElem?_cons_zero, Option.some.injEq] at hj
+        subst hj
+        simp only [List.take_zero, lstateAfter] at hd
+        have hg := denotes_sub _ _ (listening_sub_guardView st hinv) dh dp tp hd
+        have hb := blocked_sets_error_and_no_connect st.guardView dh dp tp ok
+          (spec_implies_blocked st.guardView dh dp tp hg)
+        simp [lrun, lout, hb.2.1]
+      | succ k =>
+        simp only [List.getElem?_cons_succ] at hj
+        simp only [List.take_succ_cons, lstateAfter] at hd
+        simp only [lrun, List.getElem?_cons_succ]
+        exact ih (lstep st e) k (listedInv_step st e hinv) hj hd
+  exact gen evs LState.empty i (by intro e he; simp [LState.empty] at he) hev hown
+
+-- the c23-6 scenario: one update starts modes 0 and 1; 0 is listening, 1 still starting: "localhost":8080 refused;
+-- and the stop window: 0 is being shut down but still listening: still refused; once stopped: dialled
+example : lrun LState.empty
+    [.beginUpdate true [0, 1], .stopsDone, .started 0 ⟨.tcp, [([0x31,0x32,0x37,0x2e,0x30,0x2e,0x30,0x2e,0x31], 8080)]⟩,
+     .connect hLocal 8080 .tcp true,
+     .started 1 ⟨.tcp, [([0x31,0x32,0x37,0x2e,0x30,0x2e,0x30,0x2e,0x31], 8081)]⟩,
+     .beginUpdate true [1], .connect hLocal 8080 .tcp true, .stopped 0, .stopsDone, .connect hLocal 8080 .tcp false]
+    = [none, none, none, some [.hookServerConnect, .hookServerConnectError, .completedKilled], none,
+       none, some [.hookServerConnect, .hookServerConnectError, .completedKilled], none, none,
+       some [.hookServerConnect, .socketOpen, .hookServerConnectError, .completedError]] := by decide +kernel
+
 /-! ### non-vacuity: concrete spellings, computed by the kernel -/
 
 private def srvTcp : List Server := [⟨.tcp, [([0x31,0x32,0x37,0x2e,0x30,0x2e,0x30,0x2e,0x31], 8080)]⟩]   -- 127.0.0.1:8080
